@@ -194,6 +194,11 @@ def run(prog: Program, rep: Report, tier: str):
     # sum of the transformer log-dets is log|det J| only for a triangular Jacobian: the last MADE layer is strict
     from .c09 import rule_made_masks
     rule_made_masks(prog, rep, R="C02.triangular")
+    # the log-det every method returns passes through the class-creation wrapper: it must come back unchanged
+    from .c13 import rule_wrapper
+    rep.rule("C02.wrapper", "the wrapper installed around every bijection method returns the method's (value, log-det) "
+                            "unchanged (no cast, no rounding)", minimum=1)
+    rule_wrapper(prog, rep, "C02.wrapper")
     if tier == "thorough":
         from ..audit import audit_generic
         audit_generic(prog, rep, "C02")
